@@ -315,4 +315,189 @@ def Alt.wf (vx vy : Nat) (a : Alt) : Bool :=
 def itemsWf (vx vy : Nat) (items : List Item) : Bool :=
   items.all fun it => it.subs.all fun alts => alts.all (Alt.wf vx vy)
 
+/-! ### the lazily generated non-overlap constraints (plain shapes; cc_nonoverlapconstraints.cpp)
+
+`NonOverlapConstraints` is appended to the work list with PRIORITY_NONOVERLAP (lower than every user
+constraint), so it is processed LAST.  Its sub-constraints are the shape pairs; which pair is current and
+which four alternatives it offers depends on the live `finalPosition`s:
+`getCurrSubConstraintAlternatives` (initial `computeAndSortOverlap`, lazy recomputation for the front pair,
+re-sort when the front pair no longer overlaps, stop when the sorted front has no overlap),
+`computeOverlapForShapePairInfo` (overlapMax, containment penalty), `ShapePairInfo::operator<`,
+`markCurrSubConstraintAsActive` (the pair goes to the back, processed, overlapMax = 0). -/
+
+structure PairInfo where
+  v1 : Nat
+  v2 : Nat
+  satisfied : Bool := false
+  processed : Bool := false
+  overlapMax : Rat := 0
+  /-- (ghost) `overlapMax` was computed from positions that are still the exact dyadic inputs -/
+  exactKey : Bool := true
+  deriving Repr, Inhabited
+
+/-- `ShapePairInfo::operator<` (order is 1 for all pairs of plain shapes) -/
+def pairLt (a b : PairInfo) : Bool :=
+  if a.processed != b.processed then !a.processed && b.processed
+  else decide (a.overlapMax > b.overlapMax)
+
+/-- stable sort (`std::list::sort` is stable; for a strict weak order the result of a stable sort is unique) -/
+def insertPair (a : PairInfo) : List PairInfo → List PairInfo
+  | [] => [a]
+  | b :: t => if pairLt b a then b :: insertPair a t else a :: b :: t
+def sortPairs (l : List PairInfo) : List PairInfo := l.foldr insertPair []
+
+structure Noc where
+  /-- `shapeOffsets[i].halfDim` -/
+  half : Array (Rat × Rat)
+  /-- `pairInfoList` -/
+  pairs : List PairInfo
+  sorted : Bool := false
+  initialSort : Bool := false
+  /-- `_currSubConstraintIndex = pairInfoList.size()` -/
+  done : Bool := false
+  /-- smallest margin of a discrete decision taken on computed (inexact) positions -/
+  margin : Rat := Vpsc.BIG
+  deriving Inhabited
+
+/-- the pairs `addShape(0), addShape(1), …` create: for every new id, one pair with every earlier id, ascending -/
+def Noc.ofSizes (half : Array (Rat × Rat)) : Noc :=
+  { half := half,
+    pairs := (List.range half.size).flatMap fun i => (List.range i).map fun j => { v1 := j, v2 := i } }
+
+def rmax (a b : Rat) : Rat := if a < b then b else a
+
+/-- `computeOverlapForShapePairInfo`: overlapMax and the margin of its discrete decisions; `ex`/`ey` = the x / y
+    positions of both shapes are still the exact dyadic inputs (their comparisons are exact in doubles too) -/
+def overlapOf (half : Array (Rat × Rat)) (fx fy : Array Rat) (p : PairInfo) (ex ey : Bool := false) : Rat × Rat :=
+  let h1 := half[p.v1]!
+  let h2 := half[p.v2]!
+  let left1 := fx[p.v1]! - h1.1; let right1 := fx[p.v1]! + h1.1
+  let bottom1 := fy[p.v1]! - h1.2; let top1 := fy[p.v1]! + h1.2
+  let left2 := fx[p.v2]! - h2.1; let right2 := fx[p.v2]! + h2.1
+  let bottom2 := fy[p.v2]! - h2.2; let top2 := fy[p.v2]! + h2.2
+  let spaceR := left2 - right1; let spaceL := left1 - right2
+  let spaceA := bottom2 - top1; let spaceB := bottom1 - top2
+  let mx0 := if ex then Vpsc.BIG else Vpsc.rmin (Vpsc.rabs spaceR) (Vpsc.rabs spaceL)
+  let my0 := if ey then Vpsc.BIG else Vpsc.rmin (Vpsc.rabs spaceA) (Vpsc.rabs spaceB)
+  let m0 := Vpsc.rmin mx0 my0
+  let xOverlap := decide (spaceR < 0) && decide (spaceL < 0)
+  let yOverlap := decide (spaceB < 0) && decide (spaceA < 0)
+  if !(xOverlap && yOverlap) then (0, m0)
+  else
+    let ov := rmax (rmax (rmax (-spaceL) (-spaceR)) (-spaceB)) (-spaceA)
+    let mx1 := if ex then Vpsc.BIG else Vpsc.rmin (Vpsc.rabs (left1 - left2)) (Vpsc.rabs (right1 - right2))
+    let my1 := if ey then Vpsc.BIG else Vpsc.rmin (Vpsc.rabs (bottom1 - bottom2)) (Vpsc.rabs (top1 - top2))
+    let m := Vpsc.rmin m0 (Vpsc.rmin mx1 my1)
+    if left1 ≥ left2 ∧ right1 ≤ right2 ∧ bottom1 ≥ bottom2 ∧ top1 ≤ top2 then
+      (100000 + (right1 - left1) * (top1 - bottom1), m)
+    else if left2 ≥ left1 ∧ right2 ≤ right1 ∧ bottom2 ≥ bottom1 ∧ top2 ≤ top1 then
+      (100000 + (right2 - left2) * (top2 - bottom2), m)
+    else (ov, m)
+
+/-- smallest gap between the sort keys of neighbours in a sorted pair list (unprocessed part) -/
+def keyGaps : List PairInfo → Rat
+  | a :: b :: t =>
+    -- two keys that are both exactly 0 ("no overlap") are equal in doubles as well
+    if !a.processed && !b.processed && !(a.overlapMax == 0 && b.overlapMax == 0) && !(a.exactKey && b.exactKey) then
+      Vpsc.rmin (Vpsc.rabs (a.overlapMax - b.overlapMax)) (keyGaps (b :: t))
+    else keyGaps (b :: t)
+  | _ => Vpsc.BIG
+
+/-- `computeAndSortOverlap`; `exact` = the positions are still the (dyadic) inputs, every comparison is exact
+    in doubles too, so no margin is recorded -/
+def Noc.computeAndSort (noc : Noc) (fx fy : Array Rat) (exact : Bool) (ix iy : Array Rat := #[]) : Noc :=
+  let exAt (f i0 : Array Rat) (p : PairInfo) : Bool := exact || (f[p.v1]! == i0.getD p.v1 (f[p.v1]! + 1) && f[p.v2]! == i0.getD p.v2 (f[p.v2]! + 1))
+  -- recompute until the first processed pair
+  let rec go : List PairInfo → Bool → Rat → List PairInfo × Rat
+    | [], _, m => ([], m)
+    | p :: t, stop, m =>
+      if stop || p.processed then
+        let r := go t true m
+        (p :: r.1, r.2)
+      else
+        let o := overlapOf noc.half fx fy p (exAt fx ix p) (exAt fy iy p)
+        let r := go t false (Vpsc.rmin m o.2)
+        ({ p with overlapMax := o.1, exactKey := exAt fx ix p && exAt fy iy p } :: r.1, r.2)
+  let r := go noc.pairs false Vpsc.BIG
+  let sorted := sortPairs r.1
+  let m := Vpsc.rmin r.2 (keyGaps sorted)
+  { noc with pairs := sorted, margin := if exact then noc.margin else Vpsc.rmin noc.margin m }
+
+/-- a non-overlap alternative with its cost -/
+structure CostAlt where
+  alt : Alt
+  cost : Rat
+  deriving Inhabited
+
+def insertCost (a : CostAlt) : List CostAlt → List CostAlt
+  | [] => [a]
+  | b :: t => if b.cost < a.cost then b :: insertCost a t else a :: b :: t
+
+/-- the four alternatives (L, R, B, T) of the pair, then `alternatives.sort()` (stable, by cost);
+    costs only involve the (exact, dyadic) desired positions and half sizes -/
+def pairAlternatives (half : Array (Rat × Rat)) (dx dy : Array Rat) (p : PairInfo) : List Alt :=
+  let h1 := half[p.v1]!
+  let h2 := half[p.v2]!
+  let xSep := h1.1 + h2.1
+  let ySep := h1.2 + h2.2
+  let eps : Rat := 1 / 1000000000
+  let costR := xSep - (dx[p.v2]! - dx[p.v1]!)
+  let costL := xSep - (dx[p.v1]! - dx[p.v2]!)
+  let costT := ySep - (dy[p.v2]! - dy[p.v1]!)
+  let costB := ySep - (dy[p.v1]! - dy[p.v2]!)
+  let l : List CostAlt :=
+    [ { alt := { dim := .x, con := mkCon p.v2 p.v1 (xSep + eps) false }, cost := costL },
+      { alt := { dim := .x, con := mkCon p.v1 p.v2 (xSep + eps) false }, cost := costR },
+      { alt := { dim := .y, con := mkCon p.v2 p.v1 (ySep + eps) false }, cost := costB },
+      { alt := { dim := .y, con := mkCon p.v1 p.v2 (ySep + eps) false }, cost := costT } ]
+  (l.foldr insertCost []).map (·.alt)
+
+/-- `getCurrSubConstraintAlternatives` of NonOverlapConstraints -/
+def Noc.getCurr (noc : Noc) (mf : MF) (exact : Bool) : Noc × List Alt :=
+  let fx := mf.x.final
+  let fy := mf.y.final
+  let ix := mf.x.vars.map (·.1)
+  let iy := mf.y.vars.map (·.1)
+  let exAt (f i0 : Array Rat) (p : PairInfo) : Bool := exact || (f[p.v1]! == i0.getD p.v1 (f[p.v1]! + 1) && f[p.v2]! == i0.getD p.v2 (f[p.v2]! + 1))
+  let noc := if noc.initialSort then noc
+             else { (noc.computeAndSort fx fy exact ix iy) with sorted := true, initialSort := true }
+  match noc.pairs with
+  | [] => ({ noc with done := true }, [])
+  | front :: rest =>
+    let (front, noc) :=
+      if noc.sorted then (front, noc)
+      else
+        let o := overlapOf noc.half fx fy front (exAt fx ix front) (exAt fy iy front)
+        let f := { front with overlapMax := o.1, exactKey := exAt fx ix front && exAt fy iy front }
+        (f, { noc with pairs := f :: rest, margin := if exact then noc.margin else Vpsc.rmin noc.margin o.2 })
+    if front.overlapMax == 0 then
+      if noc.sorted then ({ noc with done := true }, [])
+      else ({ (noc.computeAndSort fx fy exact ix iy) with sorted := true }, [])
+    else
+      (noc, pairAlternatives noc.half (mf.x.vars.map (·.1)) (mf.y.vars.map (·.1)) front)
+
+/-- `markCurrSubConstraintAsActive(satisfiable)` of NonOverlapConstraints -/
+def Noc.mark (noc : Noc) (sat : Bool) : Noc :=
+  match noc.pairs with
+  | [] => noc
+  | front :: rest =>
+    { noc with pairs := rest ++ [{ front with processed := true, satisfied := sat, overlapMax := 0 }], sorted := false }
+
+def MF.positionsExact (mf : MF) : Bool :=
+  mf.x.final == mf.x.vars.map (·.1) && mf.y.final == mf.y.vars.map (·.1)
+
+/-- the `while (cc->subConstraintsRemaining())` loop for the NonOverlapConstraints item `cc`;
+    `none` = the fuel ran out (the C++ would still be looping: the known livelock of a rigidly overlapping pair) -/
+def MF.runNoc (cc : Nat) : Nat → MF → Noc → Option (MF × Noc)
+  | 0, _, _ => none
+  | fuel + 1, mf, noc =>
+    if noc.done || noc.pairs.isEmpty then some (mf, noc) else
+    let g := noc.getCurr mf mf.positionsExact
+    match g.2 with
+    | [] => MF.runNoc cc fuel mf g.1
+    | alts =>
+      let r := mf.tryAlts cc mf.marks.size 0 alts
+      let mf' := { r.1 with marks := r.1.marks.push (cc, r.1.marks.size, r.2) }
+      MF.runNoc cc fuel mf' (g.1.mark r.2)
+
 end AdaptaVerif.Model.MakeFeasible
